@@ -150,7 +150,7 @@ def print_cases(tree):
 HDR = ['(TEMPERATURE', '(SDFVERSION', '(TIMESCALE', '(PROGRAM', '(VERSION', '(DIVIDER', '(VOLTAGE', '(VENDOR', '(DATE']
 SEPS = ['', ' ', ' ', '\n', '\t', '  ', '\r\n', '//c\n', ' // (q)\n', '\x0c', '\n  ']
 IDSEPS = [' ', ' ', ' ', '  ', ' \t', '', '\t', '\n', ' \x0c ']
-IDS = ['u1', 'u\\[1\\]/A', 'a/b', '"q r"', '"x"', 'A', 'n-1', 'a"b', '\tz', 'x//y', 'q_reg\\[3\\]', 'blk\\.g2/ZN', 'top/u1/Z', 'caf\xe9', '"(x)"']
+IDS = ['u1', 'u\\[1\\]/A', 'a/b', '"q r"', '"x"', 'A', 'n-1', 'a"b', '\tz', 'x//y', 'q_reg\\[3\\]', 'blk\\.g2/ZN', 'top/u1/Z', 'caf\xe9', '"(x)"', 'a\x0bb', 'n\xa0m', 'p\x85', 'r\x1ds']
 IDES = IDS + ['(posedge CK)', '(negedge A)', '(posedge  A )', '(x(y)', '(posedge\nCK)', '("z")']
 NUMS = ['1', '2.5', '', '-3', '.5', '0.125', '1.2.3', '--', '0.1', '12.625', '5.', '-', '.', '007', '-.5', '0.000', '123456789012.125', '1234567890123456', '-0']
 NOBS = [' "x"', ' 1ns', '', ' ', '\n', '\n x', '//c\n', ' //c\n', '\t', '/', '\r', '\r\n', '//c', ' "OVI 2.1"', ' 1.20:1.20:1.20', ' /', '//(\n.']
@@ -235,7 +235,7 @@ def gen_text(rng, dirty=0.5):
 PIECES = ['(DELAYFILE', '(SDFVERSION', '(DESIGN', '(DATE', '(VENDOR', '(PROGRAM', '(VERSION', '(DIVIDER', '(VOLTAGE', '(PROCESS', '(TEMPERATURE',
           '(TIMESCALE', '(CELL', '(CELLTYPE', '(INSTANCE', '(TIMINGCHECK', '(DELAY', '(ABSOLUTE', '(INTERCONNECT', '(IOPATH', '(', ')', ')', ')', '(', '"',
           '"top"', 'u1', 'A', 'Z', '(posedge CK)', '1:', '2:', '3)', '(1:2:3)', '(::)', '()', ' ', ' ', '\n', '\t', '\r\n', '\r', '//c\n', '/', 'x y', '"a b"', ':', '-']
-MUT = '() \t\n\r/":.-1aA\x0c\\\x00\x7f\xe9'
+MUT = '() \t\n\r/":.-1aA\x0c\\\x00\x7f\xe9\x0b\x1c\x1f\x85\xa0'
 
 
 def mutate(rng, t):
@@ -376,7 +376,8 @@ def dec_cases():
 
 
 def whitespace_probe():
-    """the behaviour behind C14_text_name_whitespace_refuted on the implementation; None if it is as recorded, else a description"""
+    """the behaviour behind C14_text_name_whitespace_ends_name on the implementation (D34, fixed by d9c2c16); None if white space next to
+    a name ends the name, else a description of what is lexed into it"""
     from kyupy import sdf, verilog, techlib
     import numpy as np
     v = ('module top (a0, a1, z0);\n  input a0, a1;\n  output z0;\n  wire n0;\n'
@@ -384,18 +385,23 @@ def whitespace_probe():
     base = '(DELAYFILE\n(CELL (INSTANCE u1) (DELAY (ABSOLUTE (IOPATH A1 ZN (1:2:3) (4:5:6)))))\n)\n'
     with sg.quiet():
         c = verilog.parse(v, tlib=techlib.NANGATE, branchforks=True)
-        ref = sdf.parse(base)
-        nl = sdf.parse(base.replace('(INSTANCE u1)', '(INSTANCE u1\n)'))
-        io_ref = ref.iopaths(c, techlib.NANGATE)
-        io_nl = nl.iopaths(c, techlib.NANGATE)
-        tab = sdf.parse(base.replace('A1 ZN', 'A1\tZN'))
-    if [str(k) for k in ref.cells] != ['u1'] or [str(k) for k in nl.cells] != ['u1\n']:
-        return f'instance names {list(ref.cells)} / {list(nl.cells)}'
-    if not (np.abs(io_ref).sum() > 0 and np.abs(io_nl).sum() == 0):
-        return 'iopaths() of the file with a newline after the instance name is not all-zero'
-    e = tab.cells['u1'][0]
-    if (str(e[0]), str(e[1])) != ('A1\tZN', '(1:2:3)'):
-        return f'IOPATH A1<TAB>ZN is read as {e}'
+        io_ref = sdf.parse(base).iopaths(c, techlib.NANGATE)
+        if not np.abs(io_ref).sum() > 0:
+            return 'reference file annotates nothing'
+        for what, text in (('newline after the instance name', base.replace('(INSTANCE u1)', '(INSTANCE u1\n)')),
+                           ('tab before the instance name', base.replace('(INSTANCE u1)', '(INSTANCE\tu1)')),
+                           ('CR LF after the instance name', base.replace('(INSTANCE u1)', '(INSTANCE u1\r\n)')),
+                           ('tab between the pins', base.replace('A1 ZN', 'A1\tZN')),
+                           ('newline after the second pin', base.replace('ZN (1', 'ZN\n(1')),
+                           ('form feed between the pins', base.replace('A1 ZN', 'A1\fZN'))):
+            try:
+                df = sdf.parse(text)
+            except Exception as e:
+                return f'{what}: {type(e).__name__}'
+            if [str(k) for k in df.cells] != ['u1']:
+                return f'{what}: instance names {[str(k) for k in df.cells]}'
+            if not np.array_equal(df.iopaths(c, techlib.NANGATE), io_ref):
+                return f'{what}: annotated delays differ from the file without it'
     return None
 
 
